@@ -435,17 +435,27 @@ pub(crate) fn atomic_write_with_lock_timeout(
     #[cfg(feature = "verif")]
     crate::verif_hooks::point("save.synced", path);
 
-    // Acquire exclusive lock on target file (create if needed, don't truncate)
-    let lock_file = OpenOptions::new()
-        .write(true)
-        .create(true)
-        .truncate(false) // Don't truncate - we're just using this for locking
-        .open(path)
-        .map_err(|e| SlocGuardError::io_with_context(e, path.to_path_buf(), "open for lock"))?;
+    // Acquire exclusive lock on the target file if it exists.  The target must not be
+    // created here: an empty placeholder would be visible under the final name until the
+    // rename, so a crash (or a concurrent reader) in that window would see an empty state
+    // file.  A target that does not exist yet has no readers or writers to exclude.
+    let lock_file = match OpenOptions::new().write(true).open(path) {
+        Ok(file) => Some(file),
+        Err(e) if e.kind() == io::ErrorKind::NotFound => None,
+        Err(e) => {
+            return Err(SlocGuardError::io_with_context(
+                e,
+                path.to_path_buf(),
+                "open for lock",
+            ));
+        }
+    };
     #[cfg(feature = "verif")]
     crate::verif_hooks::point("save.lock-opened", path);
 
-    if let Err(e) = try_lock_exclusive_with_timeout(&lock_file, timeout_ms) {
+    if let Some(lock_file) = &lock_file
+        && let Err(e) = try_lock_exclusive_with_timeout(lock_file, timeout_ms)
+    {
         // temp_guard will clean up on drop
         crate::output::print_warning_full(
             &format!("Failed to acquire write lock on {file_description}"),
@@ -479,7 +489,9 @@ pub(crate) fn atomic_write_with_lock_timeout(
         //
         // Note: unlock_file is best-effort; dropping lock_file closes the handle
         // anyway, releasing the lock as a side effect.
-        unlock_file(&lock_file);
+        if let Some(lock_file) = &lock_file {
+            unlock_file(lock_file);
+        }
         drop(lock_file);
         // Remove target (ignore error if it doesn't exist)
         let _ = fs::remove_file(path);
@@ -494,7 +506,9 @@ pub(crate) fn atomic_write_with_lock_timeout(
         crate::verif_hooks::point("save.renamed", path);
         // Note: unlock_file is best-effort; dropping lock_file closes the handle
         // anyway, releasing the lock as a side effect.
-        unlock_file(&lock_file);
+        if let Some(lock_file) = &lock_file {
+            unlock_file(lock_file);
+        }
         #[cfg(feature = "verif")]
         crate::verif_hooks::point("save.unlocked", path);
     }
